@@ -116,7 +116,11 @@ func (its *TransactionDatatype) BeginTransaction(
 	newTxnOp bool,
 ) *TransactionContext {
 	simhook.Yield("tx.begin")
-	if its.isLocked && its.txCtx == txCtx {
+	// A caller that is inside its own transaction passes that transaction's context and already
+	// holds the lock. Everybody else passes nil and has to take the lock: without the nil check a
+	// second goroutine arriving while the holder was in unlock() (txCtx already nil, isLocked still
+	// true) was let through without the lock and later released the holder's lock.
+	if txCtx != nil && its.isLocked && its.txCtx == txCtx {
 		return nil // called after DoTransaction() succeeds.
 	}
 	simhook.Yield("tx.begin.checked")
@@ -185,10 +189,12 @@ func (its *TransactionDatatype) unlock() {
 	if its.isLocked {
 		its.txCtx = nil
 		its.success = true
+		// isLocked belongs to the holder: clear it before the lock is released, or the next holder's
+		// "true" is overwritten with "false" and it never unlocks
+		its.isLocked = false
 		simhook.Yield("tx.unlock.before")
 		its.mutex.Unlock()
 		simhook.Yield("tx.unlock.after")
-		its.isLocked = false
 	}
 }
 
